@@ -42,7 +42,7 @@ def rng(w, signed):
 
 
 class IV:
-    __slots__ = ('w', 'signed', 'lo', 'hi', 'bits', 'src', 'aff')
+    __slots__ = ('w', 'signed', 'lo', 'hi', 'bits', 'src', 'aff', 'lbs')
 
     def __init__(self, w, signed, lo, hi, bits=None, src=None, aff=None):
         self.w = w
@@ -52,6 +52,7 @@ class IV:
         self.bits = bits
         self.src = src    # 'input' if this value is the analysed input itself (identity), for exact split points
         self.aff = aff    # exact affine form over named symbols: ({sym: coeff}, const) or None
+        self.lbs = None   # optional list of affine lower bounds (result of std::max over symbolic operands)
         if aff is None and lo == hi:
             self.aff = ({}, lo)
 
@@ -204,6 +205,7 @@ class Interp:
         self.depth = 0
         self.moves = []
         self.null_derefs = []
+        self.sym_range = {}
 
     # -- helpers --------------------------------------------------------------------------------
     def consume(self, v, env=None):
@@ -220,8 +222,20 @@ class Interp:
     def ub_event(self, kind, n):
         self.ub.append((kind, pos(n) if n is not None else '?'))
 
+    def sym(self, name, w, signed, lo, hi, bits=None, src=None):
+        """A named symbolic value with a registered range (lets affine results be re-bounded exactly)."""
+        self.sym_range[name] = (lo, hi)
+        return IV(w, signed, lo, hi, bits, src, ({name: 1}, 0))
+
     def make(self, w, signed, lo, hi, bits=None, n=None, what='arith', aff=None):
         tlo, thi = rng(w, signed)
+        if aff is not None and aff[0] and all(k_ in self.sym_range for k_ in aff[0]):
+            alo = ahi = aff[1]
+            for k_, c_ in aff[0].items():
+                l_, h_ = self.sym_range[k_]
+                alo += c_ * (l_ if c_ > 0 else h_)
+                ahi += c_ * (h_ if c_ > 0 else l_)
+            lo, hi = max(lo, alo), min(hi, ahi)
         if aff is not None and not aff[0] and tlo <= aff[1] <= thi:
             return const(w, signed, aff[1])      # the symbolic parts cancel: exact constant
         if lo < tlo or hi > thi:
@@ -284,7 +298,9 @@ class Interp:
         tlo, thi = rng(w, signed)
         lo, hi = v.lo, v.hi
         if lo >= tlo and hi <= thi:
-            return IV(w, signed, lo, hi, bits, v.src, v.aff)
+            r_ = IV(w, signed, lo, hi, bits, v.src, v.aff)
+            r_.lbs = v.lbs
+            return r_
         # out of range: modular conversion (well defined for unsigned targets, implementation-defined = two's complement for signed)
         m = (1 << w)
         aff2 = None
@@ -698,7 +714,10 @@ class Interp:
         if v.lo == 0 and v.hi == 0:
             return v
         if v.lo > 0:
-            return IV(v.w, False, m - v.hi, m - v.lo)
+            aff = None
+            if v.aff is not None:
+                aff = ({k_: -c_ for k_, c_ in v.aff[0].items()}, m - v.aff[1])
+            return IV(v.w, False, m - v.hi, m - v.lo, None, None, aff)
         return IV(v.w, False, 0, m - 1)
 
     def _aff_hint(self, a, b, op):
